@@ -244,6 +244,15 @@ def run(ctx):
                     a = ev['address']
                     wc = [y for y in walk(a) if is_call(y, 'with_context') or is_call(y, 'ok_or')]
                     addr_opt = a[0] == 'try' and bool(wc)
+                    # the Option that is tested is this extern value's own: a local of the per-value closure that starts
+                    # as None and is only ever set from the `address` literal (state must not leak between values)
+                    src_ = strip(wc[0][2][0]) if wc else None
+                    own = False
+                    if src_ is not None and src_[0] == 'var':
+                        ds = f.init_of(src_[1])
+                        own = any(d[0] == 'agg' and d[1].endswith('Option::None') for d in ds) and any(
+                            any(isinstance(y, tuple) and y[0] == 'payload' and y[2] == 'IntLiteral' for y in walk(d)) for d in ds) and len(ds) == 2
+                    addr_opt = addr_opt and own
                     fl = lambda e, n: any(isinstance(y, tuple) and y[0] == 'field' and y[2] == n for y in walk(e))
                     ok = addr_opt and fl(ev['visibility'], 'visibility') and fl(ev['name'], 'name') and ev['type_'][0] == 'agg' and ev['type_'][1].endswith('Type::Unresolved') and fl(ev['type_'], 'type_')
                     strs = [op.get('str') for bi in f.normal_blocks() for op in f.block_operands(bi) if op.get('k') == 'Const' and 'str' in op]
